@@ -27,20 +27,20 @@ theorem writeData_safe {b : Bool} {st : St} (h : Good b st) (d : DataExpr) (byte
     (hl : bytes.length = d.du.size) (hat : DAt st d) :
     d.writeData st bytes ≠ .stop .panic ∧ ∀ d' st' r, d.writeData st bytes = .ok (d', st', r) →
       Good b st' ∧ Ext st st' ∧ DAt st' d' ∧ d.same d' ∧ (r = .ok → d'.placed = true) := by
-  have w := writeStmt_safe h.inv h.sm d.placed d.addr bytes (by rw [hl]; exact hat)
+  have w := writeStmt_safe h.inv d.placed d.addr bytes (by rw [hl]; exact hat)
   unfold DataExpr.writeData
   split
   · rename_i s' p' hw
-    obtain ⟨hi, hm, hp, ha, hn, hpp⟩ := w.2 _ _ _ hw
+    obtain ⟨hi, hp, ha, hn, hpp⟩ := w.2 _ _ _ hw
     refine ⟨by simp, fun d' st' r e => ?_⟩
     cases e
-    have g := good_setSeg h hi hm hp
+    have g := good_setSeg h hi hp
     exact ⟨g.1, g.2, by rw [hl] at ha; exact ha, ⟨rfl, rfl, hpp⟩, fun _ => hn rfl⟩
   · rename_i s' p' e' hw
-    obtain ⟨hi, hm, hp, ha, hn, hpp⟩ := w.2 _ _ _ hw
+    obtain ⟨hi, hp, ha, hn, hpp⟩ := w.2 _ _ _ hw
     refine ⟨by simp, fun d' st' r e => ?_⟩
     cases e
-    have g := good_setSeg h hi hm hp
+    have g := good_setSeg h hi hp
     exact ⟨good_pushIn g.1 .., g.2, by rw [hl] at ha; exact ha, ⟨rfl, rfl, hpp⟩, fun e => by cases e⟩
   · rename_i r hw
     exact ⟨fun e => by cases e; exact w.1 hw, fun d' st' r e => by cases e⟩
@@ -235,20 +235,20 @@ theorem writeInstr_safe {enc : Encoder} (henc : EncLen enc) {b : Bool} {st : St}
     have hl' : (if deferred then List.replicate bytes.length (0xBE : UInt8) else bytes).length = ilen i.st.instr := by
       split <;> simp [hl]
     simp only
-    have w := writeStmt_safe h.inv h.sm i.placed i.st.addr
+    have w := writeStmt_safe h.inv i.placed i.st.addr
       (if deferred then List.replicate bytes.length (0xBE : UInt8) else bytes) (by rw [hl']; exact hat)
     split
     · rename_i s' p' hw
-      obtain ⟨hi, hm, hp, ha, hn, hpp⟩ := w.2 _ _ _ hw
+      obtain ⟨hi, hp, ha, hn, hpp⟩ := w.2 _ _ _ hw
       refine ⟨by simp, fun i' st' r e => ?_⟩
       cases e
-      have g := good_setSeg h hi hm hp
+      have g := good_setSeg h hi hp
       exact ⟨g.1, g.2, by rw [hl'] at ha; exact ha, ⟨rfl, rfl, hpp⟩, fun _ => hn rfl⟩
     · rename_i s' p' e' hw
-      obtain ⟨hi, hm, hp, ha, hn, hpp⟩ := w.2 _ _ _ hw
+      obtain ⟨hi, hp, ha, hn, hpp⟩ := w.2 _ _ _ hw
       refine ⟨by simp, fun i' st' r e => ?_⟩
       cases e
-      have g := good_setSeg h hi hm hp
+      have g := good_setSeg h hi hp
       exact ⟨good_pushIn g.1 .., g.2, by rw [hl'] at ha; exact ha, ⟨rfl, rfl, hpp⟩, fun e => by cases e⟩
     · rename_i r hw
       exact ⟨fun e => by cases e; exact w.1 hw, fun i' st' r e => by cases e⟩
